@@ -61,7 +61,10 @@ def takagi(matrix, connector, atol=1e-12):
     diagonal_blocks_for_Q = []
 
     for indices in singular_value_multiplicity_indices:
-        Z = V[:, indices].transpose() @ W[:, indices]
+        # NOTE: The block is cast to complex, so that the Schur form is triangular. The
+        # real Schur form of a real block may contain 2x2 blocks, whose diagonal is
+        # not the spectrum.
+        Z = V[:, indices].transpose() @ W[:, indices] + 0j
 
         D, Q = connector.schur(Z)
         diags = np.diag(D)
